@@ -272,6 +272,9 @@ def settings_lit(case):
 
 def cache_lit(case, res):
     inj = set(case.get("inject", []))
+    # history steps on the operator itself leave the same entries as `pre` calls do
+    if any(st[0] == "self" and st[1] in ("diag", "logdet") for st in case.get("steps", [])):
+        inj.add("diagonalization")
     # an earlier diagonalization() on the same object leaves a "diagonalization" entry in its memoize cache
     if any(p["op"] in ("diag", "logdet") for p in case.get("pre", [])):
         inj.add("diagonalization")
@@ -419,17 +422,11 @@ def direct_check(case, res):
     if case.get("kind") == "mixed":
         # member by member: the p.d. members must be factorised EXACTLY (no jitter leaking from the singular member); the
         # singular members carry the documented jitter of psd_safe_cholesky (C16's subject) and are only compared with the model
-        A = opbuild.dense(case["expr"], F64)
-        for i in range(A.shape[0]):
-            if i in case.get("singular", []):
-                continue
-            sub_expr = {"cls": "Dense", "t": O.tolist(A[i])}
-            sub_out = {k: (None if v is None else O.tolist(O.totensor(v)[i])) for k, v in res["out"].items()}
-            w = O.predicate(dict(case, expr=sub_expr), dict(res, out=sub_out, eff_expr=sub_expr), tol_direct=TOL_DIRECT, tol_krylov=TOL_KRYLOV)
-            if w:
-                return "batch member %d (p.d.; member(s) %s of the batch are singular): %s" % (i, case.get("singular"), w), True, tol
+        w = O.predicate_members(case, res, tol_direct=TOL_DIRECT, tol_krylov=TOL_KRYLOV, skip=tuple(case.get("singular", [])), full_pass=False)
+        if w:
+            return "%s (p.d. member; member(s) %s of the batch are singular)" % (w, case.get("singular")), True, tol
         return None, True, tol
-    return O.predicate(case, res, tol_direct=TOL_DIRECT, tol_krylov=TOL_KRYLOV), True, tol
+    return O.predicate_members(case, res, tol_direct=TOL_DIRECT, tol_krylov=TOL_KRYLOV), True, tol
 
 
 def failure_key(case, res, what):
@@ -437,7 +434,7 @@ def failure_key(case, res, what):
         "krylov-truncation" if "Lanczos stopped" in what else "shape" if "shape" in what else ("orthonormality" if ("^T U" in what or "^T V" in what or "^T Q" in what) else "value"))
     op = case["op"][2:] if case["op"].startswith("t_") else case["op"]
     meth = effective_method(case, res)
-    return {"cell": case.get("cell"), "kind": case.get("kind", "plain"), "op": op, "method": meth, "fail": fail,
+    return {"cell": case.get("cell"), "kind": case.get("kind", "plain"), "scale": case.get("scale"), "op": op, "method": meth, "fail": fail,
             "eigen": meth in ("symeig", "svd", "diagonalization"),
             "batched": bool(case.get("batch")),
             "krylov_truncated": any(e[0] == "lanczos" and e[2] < e[1] for e in res["events"])}
@@ -445,7 +442,7 @@ def failure_key(case, res, what):
 
 # ------------------------------------------------------------------------------------------------ run
 def slim(case, res=None):
-    d = {k: case[k] for k in ("cell", "kind", "batch", "op", "method", "upper", "mcs", "mrs", "fast", "inject", "pre", "steps", "target",
+    d = {k: case[k] for k in ("cell", "kind", "scale", "batch", "op", "method", "upper", "mcs", "mrs", "fast", "inject", "pre", "steps", "target",
                               "singular", "cj", "o", "B", "D", "expr") if k in case}
     if res is not None:
         d["observed"] = {"kind": res["kind"], "exc": res["exc"], "msg": res["msg"], "events": res["events"],
@@ -477,6 +474,10 @@ def run(ctx):
                     break
         return found
 
+    if not SRC_FLAGS.get("lanczos_jitter_relative", True):
+        # the source no longer adds the documented relative jitter tridiagonal_jitter * min(diag T) (the jitter term of
+        # C06_lanczos_root_relative_jitter): reported here; the SCALE family below looks for the concrete failing input
+        ctx.violation({"kind": "source-form-not-the-documented-one", "what": SRC_FLAGS.get("lanczos_jitter_note")}, no_input=True)
     ok = common.proof_stage(ctx, search)
 
     lits, owners = [], []          # Coq case literals and (case index, member index)
@@ -497,7 +498,7 @@ def run(ctx):
         by_route[route] = by_route.get(route, 0) + 1
         by_cell[case["cell"]] = by_cell.get(case["cell"], 0) + 1
         by_kind[case.get("kind", "plain")] = by_kind.get(case.get("kind", "plain"), 0) + 1
-        distinct.add((case["cell"], case.get("kind", "plain"), json.dumps(case.get("steps")), case.get("target"), case.get("cj"), case.get("o"),
+        distinct.add((case["cell"], case.get("kind", "plain"), case.get("scale"), json.dumps(case.get("steps")), case.get("target"), case.get("cj"), case.get("o"),
                       tuple(case["batch"]), case["op"], effective_method(case, res), case["upper"],
                       tuple(map(tuple, res["events"])), res["kind"]))
         if what:
